@@ -237,6 +237,19 @@ VIOLS_RE = re.compile(r'^<<"VIOLS", "(.*)">>$')
 def validate(ctx, traces, module="YorkieTrace", cfg="YorkieTrace.cfg", timeout=1800, env_extra=None):
     """Feeds recorded traces to the trace specification. Returns list of
     violations [{tag,tid,line,trace}] ; raises Infra if a trace is not accepted."""
+    # at most VALIDATORS JVMs at a time, each with a bounded heap: sixteen validators with the wrapper's default heap
+    # (25% of RAM each) were killed by the kernel's OOM killer in a thorough run
+    viols = []
+    traces = list(traces)
+    for i in range(0, len(traces), VALIDATORS):
+        viols += _validate_batch(ctx, traces[i:i + VALIDATORS], module, cfg, timeout, env_extra)
+    return viols
+
+
+VALIDATORS = 6
+
+
+def _validate_batch(ctx, traces, module, cfg, timeout, env_extra, retry=True):
     procs = []
     for t in traces:
         d = tempfile.mkdtemp(prefix="tv-", dir=ctx.scratch)
@@ -247,6 +260,7 @@ def validate(ctx, traces, module="YorkieTrace", cfg="YorkieTrace.cfg", timeout=1
         tmp = os.path.join(d, "tmp")
         os.makedirs(tmp)
         env = _tlc_env(tmp)
+        env["JAVA_TOOL_OPTIONS"] += " -Xmx5g"
         env["YTRACE"] = t
         if env_extra:
             env.update(env_extra)
@@ -264,6 +278,11 @@ def validate(ctx, traces, module="YorkieTrace", cfg="YorkieTrace.cfg", timeout=1
         out = open(os.path.join(d, "out.txt"), errors="replace").read()
         nlines = sum(1 for _ in open(t))
         accepted = ('"TRACE-ACCEPTED", %d' % nlines) in out and "Model checking completed. No error" in out
+        if not accepted and retry and p.returncode in (-9, 137, 134, 1) and "Error:" not in out:
+            # the JVM died without a TLC verdict (killed, out of memory): once more, alone
+            shutil.rmtree(d, ignore_errors=True)
+            viols += _validate_batch(ctx, [t], module, cfg, timeout, env_extra, retry=False)
+            continue
         if not accepted:
             raise Infra("trace %s not accepted by %s:\n%s" % (t, module, out[-4000:]))
         m = None
